@@ -95,18 +95,31 @@ NOT translated (tied to the model by the correspondence run / oracle of `harness
       value in place (`+` and `.union` build new objects; `+=`, `.extend`, `.update`, `.append` are refused);
     * the text of exception messages; Python's recursion limit itself (the theorems assume enough fuel).
 
-Robustness (see the report of the builder; `METADOR_REPO=<scratch copy> ./check C14 --tier quick`)
---------------------------------------------------------------------------------------------------
-    The generated text depends on the syntax tree only, so comments, docstrings, formatting, type
-    annotations within the table and renamed locals / parameters give alpha-equivalent Lean and the
-    bridge stays green; so do `a if c else b` <-> if-statement, `if a or b` <-> nested ifs with the
-    same returns, reordered independent assignments, inlined / newly introduced boolean locals, and
-    `not (a or b)` style rewrites of conditions (the proofs split on the constructors of both values
-    and let `simp` evaluate the generated term). Known to break the tie although harmless: moving the
-    list / set cases behind the model case or any rewrite that needs a construct outside the tables
-    (`match` statement, helper function, `elif isinstance(v_old, (list, set))` with `+`/`|` operators,
-    augmented assignment) -> `TranslateError`; a different loop shape in `merge_with` (e.g. building a
-    dict and one `construct` call).
+Mutation tests (`METADOR_REPO=<scratch worktree> ./check C14 --tier quick`, 2026-09-29)
+-----------------------------------------------------------------------------------
+    Behaviour-changing edits: all leave the bridge obligations (`build:…Bridge.PartialMerge`,
+    `gen_update_field`, `gen_update_field_merge`, `gen_merge_with`, `gen_no_recursion_error`) undischarged
+    (=> exit 1); the first three and the seeded ones were run through the whole check (exit 1, failing inputs
+    from the oracle), the others through translation + `lake build` of the bridge only: None branch swapped; the same
+    `issubclass` direction twice; `allow_overwrite` not passed on by the field loop; `if allow_overwrite`
+    negated; `v_new or v_old` (F5 reverted); `v_new + v_old`; `.get` from `obj` instead of `ret`; `and` for `or`
+    of the two subclass tests; set case disabled; `old_is_model or new_is_model`.
+    Seeded changes: C14-s1 (`not v_old`) and C14-s3 (one `issubclass` direction) translate and break the
+    bridge theorems; C14-s2 (`ret = self if _path else self.copy()`) is refused by the translator
+    ("updated in place … not a fresh copy and may alias an operand" -> `translate:C14` undischarged);
+    C14-s4 changes `PartialFactory.get_partial`, which is not translated (caught by the correspondence).
+    Behaviour-preserving edits that stay green: renamed locals and loop variables; comments / docstrings /
+    blank lines; reordered independent statements (the two `isinstance` tests, the two `issubclass` tests,
+    `copy` / `cast` / `_path or []` in `merge_with`); `a if c else b` <-> if-statement; inlined boolean locals;
+    `if not ow: raise …; return v_new` <-> `if ow: return v_new; raise …`; `if` <-> `elif` chain; the result of
+    `_update_field` stored without a local and keywords in another order; the None shortcut as two ifs;
+    `not (not a or not b)` for `a and b`; list / set cases moved behind the model case; `if not path: path = []`
+    for `path = path or []`. (The proofs split on the constructors of both values and let `simp` evaluate the
+    generated term, so they do not depend on the shape of the cascade.)
+    Known to break the tie although harmless: `except ValueError` for `except ValidationError` (same outcome
+    kind — a nested conflict is re-raised by the outer level — but the proof does not know that); a helper
+    method or any construct outside the tables (`v_old | v_new`, `match`, augmented assignment, comprehension
+    instead of the loop, `ret` built by one `construct` call) -> `TranslateError`.
 """
 import ast
 import os
